@@ -132,8 +132,10 @@ func smtIntToGo(v string) (int64, bool) {
 }
 
 type replayDriver struct {
-	Pkg  string // package directory relative to the repo, e.g. internal/hashing
-	Body string
+	Pkg     string // package directory relative to the repo, e.g. internal/hashing
+	Body    string
+	Flags   []string // extra go test flags (e.g. -race)
+	Confirm string   // regexp over the test output that confirms the violation (default: REPLAY-CONFIRMED)
 }
 
 func loadDriver(verif, name string) (*replayDriver, error) {
@@ -147,6 +149,12 @@ func loadDriver(verif, name string) (*replayDriver, error) {
 		d.Pkg = m[1]
 	} else {
 		return nil, fmt.Errorf("driver %s: missing '// pkg:' line", name)
+	}
+	if m := regexp.MustCompile(`(?m)^// flags: *(.+)$`).FindStringSubmatch(text); m != nil {
+		d.Flags = strings.Fields(m[1])
+	}
+	if m := regexp.MustCompile(`(?m)^// confirm-regex: *(.+)$`).FindStringSubmatch(text); m != nil {
+		d.Confirm = strings.TrimSpace(m[1])
 	}
 	d.Body = text
 	return d, nil
@@ -236,7 +244,7 @@ func tryReplay(prog *Program, ps *PropSpec, o *Obligation, repo, verif string) (
 	if missing != "" {
 		return false, "model values not convertible:" + missing
 	}
-	out, confirmed := runOverlayTest(repo, drv.Pkg, buf.String())
+	out, confirmed := runOverlayTest(repo, drv.Pkg, buf.String(), drv.Flags, drv.Confirm)
 	o.Model += "\n--- replay test (" + driverName + ") ---\n" + buf.String() + "\n--- replay output ---\n" + out + "\n"
 	if confirmed {
 		return true, "replayed on the real code: violation confirmed"
@@ -245,7 +253,7 @@ func tryReplay(prog *Program, ps *PropSpec, o *Obligation, repo, verif string) (
 }
 
 // runOverlayTest injects testSrc as a _test.go file of package dir pkg and runs TestVerifReplay.
-func runOverlayTest(repo, pkg, testSrc string) (string, bool) {
+func runOverlayTest(repo, pkg, testSrc string, flags []string, confirm string) (string, bool) {
 	tmp, err := os.MkdirTemp("", "govc-replay-")
 	if err != nil {
 		return err.Error(), false
@@ -259,7 +267,10 @@ func runOverlayTest(repo, pkg, testSrc string) (string, bool) {
 	ovData, _ := json.Marshal(ov)
 	ovFile := filepath.Join(tmp, "overlay.json")
 	os.WriteFile(ovFile, ovData, 0o644)
-	cmd := exec.Command("go", "test", "-overlay", ovFile, "-vet=off", "-v", "-count=1", "-timeout", "60s", "-run", "TestVerifReplay", "./"+pkg+"/")
+	args := []string{"test", "-overlay", ovFile, "-vet=off", "-v", "-count=1", "-timeout", "120s"}
+	args = append(args, flags...)
+	args = append(args, "-run", "TestVerifReplay", "./"+pkg+"/")
+	cmd := exec.Command("go", args...)
 	cmd.Dir = repo
 	cmd.Env = goEnv()
 	var buf bytes.Buffer
@@ -269,6 +280,10 @@ func runOverlayTest(repo, pkg, testSrc string) (string, bool) {
 	out := buf.String()
 	if len(out) > 8000 {
 		out = out[:8000] + "\n...(truncated)"
+	}
+	if confirm != "" {
+		ok, _ := regexp.MatchString(confirm, out)
+		return out, ok
 	}
 	return out, strings.Contains(out, "REPLAY-CONFIRMED")
 }
